@@ -626,6 +626,12 @@ func (v *View) checkC04(res *Result) {
 			if a.CtxKind == "cancelled" {
 				res.viol("C04", "failsafe-ctx", "true-with-cancelled-context", a.Inst+" validation returned true with an already cancelled context", a.Ret)
 			}
+			// the application cancelled the call's context at a virtual instant strictly before
+			// the call returned: from that instant on "cancelled context" is the situation the
+			// call is in, and it went on waiting for the store and answered true
+			if (a.CtxKind == "cancelmid" || a.CtxKind == "deadlinecancel") && a.CtxEndVT >= 0 && a.CtxEndVT < a.RetVT {
+				res.viol("C04", "failsafe-ctx", "true-after-context-cancelled:"+a.CtxKind, fmt.Sprintf("%s %s returned true at %v; its context was cancelled at %v", a.Inst, a.API, a.RetVT, a.CtxEndVT), a.Ret)
+			}
 			// every overlapping Get failed => must be false
 			n, bad := 0, 0
 			for _, c := range v.CallsL {
@@ -643,6 +649,9 @@ func (v *View) checkC04(res *Result) {
 			res.Obs["c04.false"]++
 			if a.CtxKind == "cancelled" {
 				res.Obs["c04.false_cancelled_ctx"]++
+			}
+			if (a.CtxKind == "cancelmid" || a.CtxKind == "deadlinecancel") && a.CtxEndVT >= 0 && a.CtxEndVT <= a.RetVT {
+				res.Obs["c04.false_ctx_cancelled_midcall"]++
 			}
 			if a.API == "ValidateTokenOrDemote" {
 				res.Obs["c04.ordemote_false"]++
@@ -1466,6 +1475,60 @@ func (v *View) checkC11(res *Result) {
 			if (t.Down < 0 || t.Down > q) && !v.inStopAt(is.Name, q) {
 				res.viol("C11", "verify-fresh-read", "keeps-leadership-without-fresh-read", fmt.Sprintf("%s: reconnect notification at %v; from %v to %v the live record never showed its id and token, yet it still leads term %s at %v", is.Name, n.vt, from, to, t.Token, v.Ev[q].VT), n.idx)
 			}
+		}
+		// (c'') the other direction, judged without the verification's log lines: a term ended by
+		// the reconnect path ("reconnect_verification") although, from the latest reconnect
+		// notification to the demotion, every live version of the record carried the instance's id
+		// and that term's token and no read of this client failed or showed anything else: a fresh
+		// read could only have shown its own record - the leader keeps leadership.
+		for _, t := range v.Terms[is.Name] {
+			if t.Down < 0 || t.Cause != "reconnect_verification" {
+				continue
+			}
+			var last *struct {
+				vt  time.Duration
+				idx int
+			}
+			for _, n := range notes {
+				if n.kind == "R" && n.idx < t.Down && n.idx > t.Up {
+					last = &struct {
+						vt  time.Duration
+						idx int
+					}{n.vt, n.idx}
+				}
+			}
+			if last == nil || v.inStopAt(is.Name, t.Down) {
+				continue
+			}
+			intact := true
+			for _, ver := range v.versions(is.Group) {
+				if ver.to < last.idx || ver.from > t.Down {
+					continue
+				}
+				if id, tok, _ := DecodeIDToken([]byte(ver.val)); id != is.Name || tok != t.Token {
+					intact = false
+				}
+			}
+			for _, m := range v.Muts {
+				if m.Key == is.Group && m.Seq >= last.idx && m.Seq <= t.Down && (m.Op == "Delete" || m.Op == "Expired" || m.By != is.Name) {
+					intact = false
+				}
+			}
+			reads, badReads := 0, 0
+			for _, c := range v.CallsL {
+				if c.Inst == is.Name && c.Op == "Get" && c.Issue <= t.Down && (c.Return < 0 || c.Return >= last.idx) {
+					reads++
+					id, tok, _ := DecodeIDToken([]byte(c.Val))
+					if !(c.Apply >= 0 && c.OK && id == is.Name && tok == t.Token) {
+						badReads++
+					}
+				}
+			}
+			if !intact || badReads > 0 {
+				continue
+			}
+			res.Obs["c11.reconnect_demotions_with_intact_record"]++
+			res.viol("C11", "verify-false-negative", "demoted-after-reconnect-although-record-intact", fmt.Sprintf("%s: reconnect notification at %v, demoted by the reconnect path at %v; the record carried its id and token %s throughout and none of its %d reads in between said otherwise", is.Name, last.vt, t.DownVT, t.Token, reads), t.Down)
 		}
 		// (c) reconnect verification. Verifications can overlap (flapping): each one is
 		// identified by its goroutine. The k-th "verifying_leadership_after_reconnect" log
